@@ -76,12 +76,13 @@ def assume_clearly_not_hermitian(cx, m):
         cx.assume(first[0, 1] - first[1, 0] > 1e-1 * (1 + first[1, 0].abs()), note="m01 - m10 clearly non-zero")
 
 
-def products(cx, kind="mvonly", shape="sq", ba=(), bx=(), complex_=False, herm_case=None):
+def products(cx, kind="mvonly", shape="sq", ba=(), bx=(), complex_=False, herm_case=None, ba2=None):
     p, q = SHAPES[shape]
+    ba2 = ba if ba2 is None else ba2       # batch shape of the second operand of a binary expression
     if kind == "matmul":
-        mats = [cx.sym("a0", ba + (p, q), complex_=complex_), cx.sym("a1", ba + (q, p), complex_=complex_)]
+        mats = [cx.sym("a0", ba + (p, q), complex_=complex_), cx.sym("a1", ba2 + (q, p), complex_=complex_)]
     else:
-        mats = [cx.sym("a%d" % i, ba + (p, q), complex_=complex_) for i in range(nmats(kind))]
+        mats = [cx.sym("a%d" % i, (ba if i == 0 else ba2) + (p, q), complex_=complex_) for i in range(nmats(kind))]
     if kind in SQUARE_ONLY:
         mats = [(mats[0] + _H(mats[0])) * 0.5]
     if kind in AUTODETECT and p == q:
@@ -258,6 +259,11 @@ def configs(tier):
         add("products/%s/sq/batchA2_x1" % kind, products, kind=kind, shape="sq", ba=(2,), bx=(1,))
         add("products/%s/sq/batchA_x2" % kind, products, kind=kind, shape="sq", ba=(), bx=(2,))
     add("products/mvonly/wide/batchA2_x21", products, kind="mvonly", shape="wide", ba=(2,), bx=(2, 1))
+    # operands of a binary expression with different batch shapes (either one the more batched)
+    for kind in ("add", "sub", "matmul", "add_dense"):
+        add("products/%s/sq/batch_first()_second(2)" % kind, products, kind=kind, shape="sq", ba=(), ba2=(2,))
+        add("products/%s/sq/batch_first(2)_second()" % kind, products, kind=kind, shape="sq", ba=(2,), ba2=())
+    add("products/add/sq/batch_first(1)_second(2)_x2", products, kind="add", shape="sq", ba=(1,), ba2=(2,), bx=(2,))
     for case in ("mv_shape", "compose_shape", "hermitian_flag"):
         add("errors/%s" % case, errors, case=case)
     for order in itertools.permutations(range(3)):
